@@ -1,0 +1,221 @@
+//! C23: identities of every kind, a dump of the loaded search access control profiles
+//! (resolved for an identity exactly as `search_related_acp` resolves them), and thin
+//! drivers for the LDAP search / compare operations (the harness crate has no
+//! `ldap3_proto` dependency, so the request structures are built here).
+
+use crate::be::Limits;
+use crate::filter::FilterResolved;
+use crate::idm::ldap::{LdapBoundToken, LdapResponseState, LdapServer};
+use crate::idm::server::IdmServer;
+use crate::prelude::*;
+use crate::server::access::profiles::{AccessControlReceiver, AccessControlTarget};
+use crate::server::access::AccessControlsTransaction;
+use crate::server::identity::{AccessScope, IdentUser, Source};
+use ldap3_proto::proto::LdapOp;
+use ldap3_proto::simple::{
+    CompareRequest, LdapFilter, LdapResultCode, LdapSearchScope, SearchRequest, ServerOps,
+    SimpleBindRequest,
+};
+use std::net::{IpAddr, Ipv4Addr};
+use std::sync::Arc;
+
+/// A user identity for `entry` with the given access scope (unlimited resource limits, as
+/// the impersonation constructors use).
+pub fn ident_user(entry: Arc<EntrySealedCommitted>, scope: AccessScope) -> Identity {
+    Identity::new(
+        IdentType::User(IdentUser { entry }),
+        Source::Internal,
+        UUID_INTERNAL_SESSION_ID,
+        scope,
+        Limits::unlimited(),
+        None,
+    )
+}
+
+/// The four internal identities, by the constructors the server itself uses.
+/// 0 = System, 1 = Migration, 2 = AccountRequest, 3 = MessageQueue.
+pub fn ident_internal(role: u8) -> Identity {
+    match role {
+        0 => Identity::from_internal(),
+        1 => Identity::migration(),
+        2 => Identity::account_request(),
+        _ => Identity::message_queue(),
+    }
+}
+
+/// A synchronisation identity.
+pub fn ident_synch(uuid: Uuid) -> Identity {
+    Identity::new(
+        IdentType::Synch(uuid),
+        Source::Internal,
+        UUID_INTERNAL_SESSION_ID,
+        AccessScope::Synchronise,
+        Limits::unlimited(),
+        None,
+    )
+}
+
+#[derive(Debug, Clone)]
+pub enum HookReceiver {
+    Group(Vec<Uuid>),
+    EntryManager,
+    None,
+}
+
+#[derive(Debug, Clone)]
+pub struct HookSearchAcp {
+    pub name: String,
+    pub receiver: HookReceiver,
+    /// `None`: the profile has no target, or its target filter does not resolve for this identity.
+    pub target: Option<FilterResolved>,
+    pub attrs: Vec<Attribute>,
+}
+
+/// Every loaded search profile, in evaluation order, with its target filter resolved for
+/// `ident` by the same call `resolve_access_conditions` makes (`resolve(ident, None, ..)`).
+pub fn dump_search_acps<'a, T: QueryServerTransaction<'a>>(
+    qs: &mut T,
+    ident: &Identity,
+) -> Vec<HookSearchAcp> {
+    qs.get_accesscontrols()
+        .get_search()
+        .iter()
+        .map(|acs| HookSearchAcp {
+            name: acs.acp.name.clone(),
+            receiver: match &acs.acp.receiver {
+                AccessControlReceiver::Group(g) => HookReceiver::Group(g.iter().copied().collect()),
+                AccessControlReceiver::EntryManager => HookReceiver::EntryManager,
+                AccessControlReceiver::None => HookReceiver::None,
+            },
+            target: match &acs.acp.target {
+                AccessControlTarget::Scope(f) => {
+                    f.resolve(ident, None, None).ok().map(|r| r.to_inner().clone())
+                }
+                AccessControlTarget::None => None,
+            },
+            attrs: acs.attrs.iter().cloned().collect(),
+        })
+        .collect()
+}
+
+#[derive(Debug, Clone)]
+pub enum HookLdapFilter {
+    Eq(String, String),
+    Pres(String),
+    And(Vec<HookLdapFilter>),
+    Or(Vec<HookLdapFilter>),
+    Not(Box<HookLdapFilter>),
+}
+
+fn lf(f: &HookLdapFilter) -> LdapFilter {
+    match f {
+        HookLdapFilter::Eq(a, v) => LdapFilter::Equality(a.clone(), v.clone()),
+        HookLdapFilter::Pres(a) => LdapFilter::Present(a.clone()),
+        HookLdapFilter::And(l) => LdapFilter::And(l.iter().map(lf).collect()),
+        HookLdapFilter::Or(l) => LdapFilter::Or(l.iter().map(lf).collect()),
+        HookLdapFilter::Not(g) => LdapFilter::Not(Box::new(lf(g))),
+    }
+}
+
+fn ip() -> IpAddr {
+    IpAddr::V4(Ipv4Addr::LOCALHOST)
+}
+
+/// An anonymous simple bind through `LdapServer::do_op`.
+pub async fn ldap_bind_anonymous(
+    ldap: &LdapServer,
+    idms: &IdmServer,
+) -> Result<LdapBoundToken, String> {
+    let sbr = SimpleBindRequest {
+        msgid: 1,
+        dn: String::new(),
+        pw: String::new(),
+    };
+    match ldap
+        .do_op(idms, ServerOps::SimpleBind(sbr), None, ip(), Uuid::new_v4())
+        .await
+    {
+        Ok(LdapResponseState::Bind(t, _)) => Ok(t),
+        Ok(_) => Err("bind refused".to_string()),
+        Err(e) => Err(format!("{e:?}")),
+    }
+}
+
+/// A subtree search below `base` through `LdapServer::do_op`; per result entry its dn and
+/// the attribute type names returned. `Err` carries the LDAP result code name.
+pub async fn ldap_search(
+    ldap: &LdapServer,
+    idms: &IdmServer,
+    token: &LdapBoundToken,
+    base: &str,
+    filter: &HookLdapFilter,
+    attrs: &[String],
+) -> Result<Vec<(String, Vec<String>)>, String> {
+    let sr = SearchRequest {
+        msgid: 1,
+        base: base.to_string(),
+        scope: LdapSearchScope::Subtree,
+        filter: lf(filter),
+        attrs: attrs.to_vec(),
+    };
+    let r = ldap
+        .do_op(idms, ServerOps::Search(sr), Some(token.clone()), ip(), Uuid::new_v4())
+        .await
+        .map_err(|e| format!("{e:?}"))?;
+    let msgs = match r {
+        LdapResponseState::MultiPartResponse(m) => m,
+        LdapResponseState::Respond(m) => vec![m],
+        _ => return Err("unexpected response state".to_string()),
+    };
+    let mut out = Vec::new();
+    for m in msgs {
+        match m.op {
+            LdapOp::SearchResultEntry(e) => {
+                out.push((e.dn, e.attributes.into_iter().map(|a| a.atype).collect()))
+            }
+            LdapOp::SearchResultDone(r) => {
+                if r.code != LdapResultCode::Success {
+                    return Err(format!("{:?}", r.code));
+                }
+            }
+            _ => return Err("unexpected ldap op".to_string()),
+        }
+    }
+    Ok(out)
+}
+
+/// A compare through `LdapServer::do_op`: 0 = compareTrue, 1 = compareFalse,
+/// 2 = noSuchObject; `Err` carries any other result code name.
+pub async fn ldap_compare(
+    ldap: &LdapServer,
+    idms: &IdmServer,
+    token: &LdapBoundToken,
+    entry: &str,
+    atype: &str,
+    val: &str,
+) -> Result<u8, String> {
+    let cr = CompareRequest {
+        msgid: 1,
+        entry: entry.to_string(),
+        atype: atype.to_string(),
+        val: val.to_string(),
+    };
+    let r = ldap
+        .do_op(idms, ServerOps::Compare(cr), Some(token.clone()), ip(), Uuid::new_v4())
+        .await
+        .map_err(|e| format!("{e:?}"))?;
+    let msgs = match r {
+        LdapResponseState::MultiPartResponse(m) => m,
+        LdapResponseState::Respond(m) => vec![m],
+        _ => return Err("unexpected response state".to_string()),
+    };
+    match msgs.first().map(|m| &m.op) {
+        Some(LdapOp::CompareResult(r)) => match r.code {
+            LdapResultCode::CompareTrue => Ok(0),
+            LdapResultCode::CompareFalse => Ok(1),
+            LdapResultCode::NoSuchObject => Ok(2),
+            ref c => Err(format!("{c:?}")),
+        },
+        _ => Err("unexpected ldap op".to_string()),
+    }
+}
